@@ -1,11 +1,11 @@
 SPECIFICATION Spec
 CONSTANTS
-  Fault = "save_on_err"
+  Fault = "con_early_return"
   Kinds <- Slts
   Comps <- OneComp
   Intervals <- Iv4
   MaxActs = 4
-  Cons <- Cons1
+  Cons <- ConsF
   MaxSets = 1
 INVARIANT SameLength
 INVARIANT SameStep
